@@ -37,9 +37,23 @@ def call(f, *a):
         return None
 
 
+FAIL_FIRST = [0]
+
+
 def build_all(e, V):
     """All the ways the implementation can produce the number: name -> (callable, takes_dict)."""
     import optyx.core.compiler as C
+    # an attempt that FAILS first (a variable missing from the list: KeyError) must leave nothing behind that changes what the
+    # next, valid compilation of the same node objects under another layout returns
+    if len(V) >= 2 and FAIL_FIRST[0] % 3 == 0:
+        missing = [v for v in V if v in e.get_variables()]
+        if missing:
+            short = [v for v in V if v is not missing[0]][::-1]
+            try:
+                C.compile_expression(e, short)
+            except Exception:
+                pass
+    FAIL_FIRST[0] += 1
     # The process-wide compile cache is deliberately NOT cleared between cases: whatever earlier expressions left in it
     # (same-named views, equal-named variables) must not change the answer for this one.
     with np.errstate(all="ignore"):
@@ -69,7 +83,14 @@ def build_all(e, V):
 def observe_calls(fns, V, x):
     d = {v.name: x[i] for i, v in enumerate(V)}
     with np.errstate(all="ignore"):
-        return {k: call(f, d if takes_dict else x) for k, (f, takes_dict) in fns.items()}
+        out = {k: call(f, d if takes_dict else x) for k, (f, takes_dict) in fns.items()}
+        if np.all(x == np.round(x)) and np.all(np.abs(x) < 1e6):
+            # an integer-valued point handed over as an integer array.  The documented argument is a floating array and NumPy itself
+            # refuses some integer operations (negative integer powers), so a refusal is accepted - but a NUMBER that comes back
+            # must be the number
+            out["int:compiled(int64 array)"] = call(fns["compiled"][0], x.astype(np.int64))
+            out["int:iterative(int32 array)"] = call(fns["iterative"][0], x.astype(np.int32))
+        return out
 
 
 def observe(e, V, x, rng):
@@ -91,7 +112,8 @@ def run(rep: vk.Report):
     partial, partial_meta = [], []
     def stream():
         k = 0
-        for g, e in common.corpus(rng, rep.tier, n_expr, profiles=("poly", "smooth", "smooth", "all", "all"), errors=errors):
+        for g, e in common.corpus(rng, rep.tier, n_expr, profiles=("poly", "smooth", "smooth", "all", "all"), errors=errors,
+                                  gen_flags={"numpy_coefs": True}):
             yield g, e, None
             k += 1
             if k % 5 == 0:
@@ -129,6 +151,8 @@ def run(rep: vk.Report):
         # round 0 and 1: two points; round 2: every Parameter re-set AFTER compilation, same callables
         for rnd in range(3 if params else 2):
             pt = common.pick_point(rng, [v.name for v in V])
+            if rnd == 1 and rng.random() < 0.35:
+                pt = {v.name: float(rng.choice([1, 2, 3, -1, -2, 4, 5])) for v in V}      # an integer-valued point
             x = np.array([pt[v.name] for v in V], dtype=float)
             if rnd == 2:
                 for n, p in params.items():
@@ -148,7 +172,7 @@ def run(rep: vk.Report):
             vals = [v for v in obs.values() if isinstance(v, float)]
             if obs["evaluate"] is None:
                 continue  # outside the domain: the property does not speak about this point
-            if len(vals) < 6:
+            if len(vals) < sum(1 for k_ in obs if not k_.startswith("int:") or obs[k_] is not None):
                 # some path raised / overflowed although evaluate() produced a number.  evaluate() goes through NumPy's inf
                 # arithmetic (0.5/0 -> inf, inf**-0.5 -> 0.0), so a finite value does not prove the point is in the domain:
                 # the MODEL decides - only if the enclosure of [[e]](x) is bounded is a failing path a violation
